@@ -449,11 +449,11 @@ Proof.
     repeat split; cbn [set_checked upd_row r_gen r_ovr r_stamp]; assumption.
 Qed.
 
-Lemma is_dirty_DSTEP : forall fuel runid wl w c f mx seen v w' c' evs,
+Lemma is_dirty_DSTEP : forall fuel runid cyc wl w c f mx seen v w' c' evs,
   DSTEP wl w ->
-  is_dirty fuel runid w c f (load runid (dbs wl) f) mx seen = Ret (v, w', c', evs) -> DSTEP wl w'.
+  is_dirty fuel runid cyc w c f (load runid (dbs wl) f) mx seen = Ret (v, w', c', evs) -> DSTEP wl w'.
 Proof.
-  induction fuel as [|fuel IH]; intros runid wl w c f mx seen v w' c' evs Hl H; [discriminate|].
+  induction fuel as [|fuel IH]; intros runid cyc wl w c f mx seen v w' c' evs Hl H; [discriminate|].
   cbn [is_dirty] in H.
   destruct (existsb (Nat.eqb f) seen); [inversion H; subst; exact Hl|].
   set (r := load runid (dbs wl) f) in *.
@@ -473,8 +473,9 @@ Proof.
   eapply (walk_deps_inv2 (fun wk => DSTEP wl wk /\ DSTEP w wk) (fun wk => DSTEP wl wk)
                          (fun d rs => rs = load runid (dbs w) (d_source d)));
     [| | | |split; [exact Hl|apply DSTEP_refl]|exact H].
-  - intros w1 c1 d rs v1 w1' c1' e1 -> [Hl1 Hw1] E.
-    pose proof (IH _ _ _ _ _ _ _ _ _ _ _ Hw1 E) as Hw1'. split; [|exact Hw1'].
+  - intros w1 c1 d rs v1 w1' c1' e1 -> [Hl1 Hw1] E. cbv beta in E.
+    destruct (existsb (Nat.eqb (d_source d)) cyc); [inversion E; subst; split; assumption|].
+    pose proof (IH _ _ _ _ _ _ _ _ _ _ _ _ Hw1 E) as Hw1'. split; [|exact Hw1'].
     (* from wl: through w *)
     eapply DSTEP_trans; [exact Hl|exact Hw1'].
   - intros w1 [Hl1 _]. exact Hl1.
@@ -929,8 +930,8 @@ Proof.
   destruct m.
   - eapply start_self_STEP; eauto.
   - destruct (is_failed (e_runid e) (load (e_runid e) (dbs w0) f)); [inversion H; subst; apply STEP_refl|].
-    destruct (is_dirty fuel (e_runid e) w0 ChkDb f (load (e_runid e) (dbs w0) f) (e_runid e) []) as [[[[v wd] cd] evd]|] eqn:Ed; [|discriminate].
-    pose proof (is_dirty_DSTEP _ _ _ _ _ _ _ _ _ _ _ _ (DSTEP_refl w0) Ed) as Dd.
+    destruct (is_dirty fuel (e_runid e) (e_cycles e) w0 ChkDb f (load (e_runid e) (dbs w0) f) (e_runid e) []) as [[[[v wd] cd] evd]|] eqn:Ed; [|discriminate].
+    pose proof (is_dirty_DSTEP _ _ _ _ _ _ _ _ _ _ _ _ _ (DSTEP_refl w0) Ed) as Dd.
     apply (STEP_trans w0 wd); [now apply DSTEP_STEP|].
     assert (Hfd : find_row (rows (dbs wd)) t 1 = Some f).
     { rewrite <- Hf0. apply find_row_by_names. exact (proj1 (proj2 Dd)). }
